@@ -19,6 +19,8 @@ MinOf(S) == CHOOSE x \in S : \A y \in S : x <= y
 Estimate(st, b) == MinOf({st.tab[Idx(st, r, b)] : r \in 1..st.d})
 
 Compatible(a, c) == a.d = c.d /\ a.w = c.w
+\* merge() accepts exactly the sketches of the same shape built with the same seed
+MergeAccepts(d1, w1, seed1, d2, w2, seed2) == d1 = d2 /\ w1 = w2 /\ seed1 = seed2
 Merge(a, c) == [a EXCEPT !.tab = [i \in DOMAIN a.tab |-> a.tab[i] + c.tab[i]], !.total = @ + c.total]
 
 Halve(st) == [st EXCEPT !.tab = [i \in DOMAIN st.tab |-> st.tab[i] \div 2], !.total = @ \div 2]
@@ -26,6 +28,19 @@ Halve(st) == [st EXCEPT !.tab = [i \in DOMAIN st.tab |-> st.tab[i] \div 2], !.to
 Scale(c, num, den) == (c * num) \div den
 Decay(st, num, den) == [st EXCEPT !.tab = [i \in DOMAIN st.tab |-> Scale(st.tab[i], num, den)],
                                   !.total = Scale(@, num, den)]
+
+(* ---- the same operations on 64-bit quantities (counters and weights of the u64 / i64 instances ---- *)
+(* ---- above TLC's 32-bit integers): four 16-bit limbs, least significant first (Wide.tla)      ---- *)
+W == INSTANCE Wide WITH B <- 65536, N <- 4
+NewCMW(d, w) == [d |-> d, w |-> w, tab |-> [i \in 0..(d * w - 1) |-> W!WZero], total |-> W!WZero]
+UpdateW(st, b, wt) ==
+  IF wt = W!WZero THEN st
+  ELSE [st EXCEPT !.total = W!WAdd(@, wt),
+                  !.tab = [i \in DOMAIN st.tab |->
+                             IF \E r \in 1..st.d : Idx(st, r, b) = i THEN W!WAdd(st.tab[i], wt) ELSE st.tab[i]]]
+EstimateW(st, b) == W!WMin({st.tab[Idx(st, r, b)] : r \in 1..st.d})
+MergeW(a, c) == [a EXCEPT !.tab = [i \in DOMAIN a.tab |-> W!WAdd(a.tab[i], c.tab[i])], !.total = W!WAdd(@, c.total)]
+HalveW(st) == [st EXCEPT !.tab = [i \in DOMAIN st.tab |-> W!WHalf(st.tab[i])], !.total = W!WHalf(@)]
 
 (* ---- C08 ----------------------------------------------------------------- *)
 \* truth: [item -> true weight], bk: [item -> bucket tuple]
